@@ -173,6 +173,10 @@ def inputs_c01_c02(tier, rng):
             out.append(("deep-wellformed", "pub fn p(v) {\n  case v {\n    " + o * n + "_" + c * n + " -> 1\n  }\n}\npub fn after() { 2 }\n"))
         for (o, c) in [("List(", ")"), ("#(", ")"), ("fn() -> ", "")]:
             out.append(("deep-wellformed", "pub fn t(v: " + o * n + "Int" + c * n + ") { v }\npub fn after() { 2 }\n"))
+    # well-formed WIDE constructs: hundreds of siblings in one node, no nesting (counters per node / per run of tokens)
+    for n in (127, 128, 129, 255, 256, 257, 300):
+        for t in wide_texts(n):
+            out.append(("wide-wellformed", t))
     # exotic characters at the start, at the end, alone, doubled and inside texts
     samples = [t for t in corpus() if len(t) < 1500][:6] + ["pub fn f(x) {\n  x\n}\n", "import a\nconst c = \"s\"\n", ""]
     for ch in EXOTIC:
@@ -186,6 +190,60 @@ def inputs_c01_c02(tier, rng):
         n = rng.randrange(1, 40)
         out.append(("keywords", " ".join(rng.choice(EXTRA[12:25] + ["fn", "let", "case", "x", "{", "}"]) for _ in range(n))))
     return out
+
+
+def wide_texts(n):
+    """one text per construct that takes a list of siblings, with n of them, followed by another definition"""
+    nums = ", ".join(str(i) for i in range(n))
+    names = ", ".join(f"a{i}" for i in range(n))
+    after = "\n\npub fn after() {\n  2\n}\n"
+    return [
+        "pub fn w() {\n  <<" + nums + ">>\n}" + after,
+        "pub fn w(v) {\n  case v {\n    <<" + nums + ">> -> 1\n    _ -> 2\n  }\n}" + after,
+        "pub fn w() {\n  [" + nums + "]\n}" + after,
+        "pub fn w() {\n  #(" + nums + ")\n}" + after,
+        "pub fn w() {\n  f(" + nums + ")\n}" + after,
+        "pub fn w(" + names + ") {\n  1\n}" + after,
+        "pub fn w(v) {\n  case v {\n" + "".join(f"    {i} -> {i}\n" for i in range(n)) + "  }\n}" + after,
+        "pub fn w() {\n" + "".join(f"  let a{i} = {i}\n" for i in range(n)) + "  a0\n}" + after,
+        "import m.{" + names + "}" + after,
+        "pub type W {\n" + "".join(f"  V{i}\n" for i in range(n)) + "}" + after,
+        "pub type W {\n  V(" + ", ".join(f"f{i}: Int" for i in range(n)) + ")\n}" + after,
+        "pub fn w() {\n  \"" + "x" * n + "\"\n}" + after,
+        "pub fn w(v) {\n  v" + " |> g" * n + "\n}" + after,
+        "pub fn w() {\n  1" + " + 1" * n + "\n}" + after,
+        "pub fn w(v) {\n  v" + ".f" * n + "\n}" + after,
+        "pub fn w(v) {\n  v" + "(1)" * n + "\n}" + after,
+        "// c\n" * n + "pub fn w() { 1 }" + after,
+        "pub fn w() {\n  1" + "\n" * n + "}" + after,
+        "pub const w = [" + nums + "]" + after,
+        "pub fn w(v: #(" + ", ".join("Int" for _ in range(n)) + ")) { v }" + after,
+    ]
+
+
+def run_wide_huge(prop, res, tier):
+    """the same constructs with tens of thousands of siblings (counters of 16 bits): implementation only - the tree is
+    lossless, nothing panics"""
+    n = 70000
+    texts = wide_texts(n)
+    if tier == "quick":
+        # bit array, list, arguments, parameters, clauses, statements, string, binary operators, comments
+        texts = [texts[i] for i in (0, 2, 4, 5, 6, 7, 11, 13, 16)]
+    reqs = ["lossless\t" + hexs(t) for t in texts]
+    lo, rc = common.run_lines(common.HARNESS_BIN, reqs, timeout=1200)
+    res.cov["evaluations"] += len(reqs)
+    res.cov["wide_huge"] = f"{len(texts)} constructs x {n} siblings"
+    if len(lo) != len(reqs):
+        res.add_violation(prop + "/abort/wide-construct", f"the process ended on a construct with {n} siblings (rc={rc}, {len(lo)} of {len(reqs)} answered)",
+                          {"construct_index": len(lo), "text_head": texts[min(len(lo), len(texts) - 1)][:120], "siblings": n})
+        return
+    for t, a in zip(texts, lo):
+        if a.startswith("FAIL") and prop == "C01":
+            res.add_violation("C01/lossless/" + a.split(" ")[1], f"tree does not reproduce a text with {n} siblings in one node: {a[:200]}",
+                              {"text_head": t[:120], "siblings": n, "impl": a[:300]})
+        elif a.startswith("PANIC") and prop == "C02":
+            res.add_violation("C02/panic/" + re.sub(r"[^A-Za-z0-9_.:/-]+", "_", canon_panic(a)[6:60]), f"parse_module panicked on a construct with {n} siblings: {a[:200]}",
+                              {"text_head": t[:120], "siblings": n, "impl": a[:300]})
 
 
 def dist(labels):
@@ -276,6 +334,7 @@ def run_c01_c02(prop, res, tier, seed):
                 pass  # a panic is C02's subject
     if prop == "C02":
         run_deep(res, tier)
+    run_wide_huge(prop, res, tier)
     res.cov["distinct_nontrivial"] = len(distinct)
     res.cov["input_distribution"] = dist([l for l, _ in cases])
     res.cov["rule"] = ("corpus (test_data, fixtures of the repository's tests) and every ~40th prefix; all sequences over 26 token-class "
